@@ -39,11 +39,13 @@ var c15Neighbors = []struct{ name, before, after, outBefore, outAfter string }{
 	{"calls", "{call .e /}", "{call .e /}", "E", "E"},
 	{"print-then-edge", "{$x}", "", "X", ""},
 	{"literal", "{literal}[{/literal}", "{literal}]{/literal}", "[", "]"},
+	{"self-closing-let", "{let $q: 1 /}", "{$q}", "", "1"},
+	{"call-with-param", "{call .f}{param x: 2 /}{/call}", "{call .f}{param x}3{/param}{/call}", "F2", "F3"},
 }
 
 func c15Source(bodies []string) string {
 	var b strings.Builder
-	b.WriteString("{namespace n}\n/** */\n{template .e}E{/template}\n")
+	b.WriteString("{namespace n}\n/** */\n{template .e}E{/template}\n/** @param x */\n{template .f}F{$x}{/template}\n")
 	for i, body := range bodies {
 		fmt.Fprintf(&b, "/** @param x */\n{template .t%d}%s{if false}{$x}{/if}{/template}\n", i, body)
 	}
@@ -70,8 +72,24 @@ func renderBodies(bodies []string) ([]string, error) {
 	return outs, nil
 }
 
+// hasCommentStart: the run might contain a comment. A run is comment-free when it has no "/*" and
+// every "//" in it is preceded by a character that is certainly not whitespace ("//" begins a comment
+// only after whitespace; at the very start of a run it follows the closing brace of a tag).
 func hasCommentStart(s string) bool {
-	return strings.Contains(s, "/*") || strings.Contains(s, "//") || strings.HasSuffix(s, "/") || strings.HasPrefix(s, "/")
+	if strings.Contains(s, "/*") {
+		return true
+	}
+	rs := []rune(s)
+	for i := 0; i+1 < len(rs); i++ {
+		if rs[i] == '/' && rs[i+1] == '/' && i > 0 {
+			switch rs[i-1] {
+			case 'a', '<', '>', '/', 'é':
+			default:
+				return true
+			}
+		}
+	}
+	return false
 }
 
 func checkC15(c C15Case) Verdict {
@@ -115,7 +133,7 @@ func checkC15(c C15Case) Verdict {
 			default:
 				src.WriteString(p)
 				stripped.WriteString(p)
-				if strings.Contains(p, "://") {
+				if strings.Contains(p, "://") || strings.HasPrefix(p, "//") {
 					verbatim = append(verbatim, p)
 				}
 			}
@@ -192,8 +210,20 @@ func genC15(t *rapid.T) C15Case {
 	case 5, 6, 7:
 		c.Level = "L2"
 		for i, n := 0, rapid.IntRange(1, 6).Draw(t, "npieces"); i < n; i++ {
-			k := rapid.SampledFrom([]string{"text", "text", "line", "block"}).Draw(t, "kind")
+			k := rapid.SampledFrom([]string{"text", "text", "line", "block", "slashtext"}).Draw(t, "kind")
 			switch k {
+			case "slashtext":
+				// text that begins with "//" directly after a tag, a block comment or a non-whitespace
+				// character is not a comment
+				k = "text"
+				p := rapid.SampledFrom([]string{"//cdn.example.com/a.js", "//x", "///y"}).Draw(t, "slashtext")
+				if i > 0 {
+					prev := c.Runs[i-1]
+					if c.Kinds[i-1] == "line" || c.Kinds[i-1] == "text" && (prev == "" || strings.ContainsAny(prev[len(prev)-1:], " \t\r\n")) {
+						p = "z" + p
+					}
+				}
+				c.Runs = append(c.Runs, p)
 			case "text":
 				c.Runs = append(c.Runs, rapid.SampledFrom([]string{"a", "b c", " d ", "\n", "  \n  ", "<p>", "http://x.y/z", "a//b", "e\n", "\nf", "x:// y", "<br>\n", " ", "é", "1/2", "ftp://h/ /p"}).Draw(t, "text"))
 			case "line":
